@@ -7,6 +7,7 @@ kl_clip=None accepted and leaves R = V; zero gradients give a finite step; the s
 from __future__ import annotations
 
 import math
+import random
 
 from kverif.common import Deadline, case_rng, stable_hash, tier_value
 
@@ -17,7 +18,7 @@ RULE = ('generated models and gradients, lr constant or callable, kl_clip consta
         'non-trivial: clip active (expected nu < 0.9) or kl_clip None while the formula would clip; distinct = hash(model, config)')
 ASSUMPTIONS = ['factors are read from state_dict() after the step (inv_update_steps | factor_update_steps, constant damping)',
                'the value returned by the private _compute_grad_scale is recorded as information only (probe_checks, probe_disagreements_info); it decides nothing']
-REQUIRED = ['nu_checks', 'none_checks', 'zero_grad_checks', 'world_nu_checks']
+REQUIRED = ['nu_checks', 'none_checks', 'zero_grad_checks', 'steps_with_some_zero_gradient_layers', 'world_nu_checks']
 
 
 def solve_all(cfg, D, fac, lam):
@@ -158,6 +159,17 @@ def run_single(rng, res, idx):
                     for q in s.model.parameters():
                         if q.grad is not None:
                             q.grad.zero_()
+            elif len(s.layers) >= 2 and random.Random(stable_hash('zero-layer', idx, st)).random() < 0.25:
+                # some registered layers have an exactly zero gradient this step (an auxiliary head with loss weight 0, a dead
+                # branch): their <V, D> is 0, all the other layers still count in the sum
+                zr = random.Random(stable_hash('zero-layer-choice', idx, st))
+                names = sorted(s.layers)
+                for n_ in zr.sample(names, zr.randint(1, len(names) - 1)):
+                    with torch.no_grad():
+                        for q in s.layers[n_].parameters(recurse=False):
+                            if q.grad is not None:
+                                q.grad.zero_()
+                res.count('steps_with_some_zero_gradient_layers')
             D = s.grads()
             lam = s.p.damping
             kl = kh.mk(cfg['kl'])
